@@ -106,22 +106,24 @@ NGrid == Cardinality(GridSet)
 
 Table == [i \in 1..Len(Cases) |-> [m |-> Cases[i], c16 |-> Crc16(Cases[i])[1], c64 |-> Crc64(Cases[i])]]
 
+\* every case is an initial state (the state IS the byte string, nothing moves): TLC evaluates the invariants on each
 VARIABLE c
-Init == c \in 1..Len(Cases)
+Init == c \in {Cases[i] : i \in 1..Len(Cases)}
 Next == UNCHANGED c
 Spec == Init /\ [][Next]_c
 
-Msg == Cases[c]
-Short == c <= NGrid \/ Len(Msg) <= DivMax
+Msg == c
+Enumerated == Len(Msg) <= MaxLen
+Short == Enumerated \/ Len(Msg) <= DivMax
 
 \* ---- properties ----
 \* the table driven recurrence computes the polynomial division
-DivIsTab16 == Short => CrcDiv(GENIBUS, Msg) = <<Table[c].c16>>
-DivIsTab64 == Short => CrcDiv(WE, Msg) = Table[c].c64
-InRange == Table[c].c16 \in 0..65535 /\ \A i \in 1..4 : Table[c].c64[i] \in 0..65535
+DivIsTab16 == Short => CrcDiv(GENIBUS, Msg) = Crc16(Msg)
+DivIsTab64 == Short => CrcDiv(WE, Msg) = Crc64(Msg)
+InRange == Crc16(Msg)[1] \in 0..65535 /\ \A i \in 1..4 : Crc64(Msg)[i] \in 0..65535
 \* a codeword (message followed by its big endian checksum) leaves the constant residue
-Codeword16 == XorLimbs(Crc16(Msg \o LimbBytes(<<Table[c].c16>>)), GENIBUS.xorout) = Residue16
-Codeword64 == XorLimbs(Crc64(Msg \o LimbBytes(Table[c].c64)), WE.xorout) = Residue64
+Codeword16 == XorLimbs(Crc16(Msg \o LimbBytes(Crc16(Msg))), GENIBUS.xorout) = Residue16
+Codeword64 == XorLimbs(Crc64(Msg \o LimbBytes(Crc64(Msg))), WE.xorout) = Residue64
 \* affine over GF(2): crc(a) + crc(b) + crc(0..0) = crc(a + b) for strings of one length
 Mask(n) == [i \in 1..n |-> (37 * i + 90) % 256]
 XorMsg(a, b) == [i \in DOMAIN a |-> a[i] ^^ b[i]]
@@ -129,7 +131,7 @@ Affine16 == LET n == Len(Msg) IN XorLimbs(XorLimbs(Crc16(Msg), Crc16(Mask(n))), 
 Affine64 == LET n == Len(Msg) IN XorLimbs(XorLimbs(Crc64(Msg), Crc64(Mask(n))), Crc64(Zeros(n))) = Crc64(XorMsg(Msg, Mask(n)))
 \* every single bit error is detected (checked on the enumerated strings)
 Flip(m, i, k) == [m EXCEPT ![i] = m[i] ^^ (2^k)]
-SingleBit == c <= NGrid => \A i \in DOMAIN Msg : \A k \in 0..7 :
+SingleBit == Enumerated => \A i \in DOMAIN Msg : \A k \in 0..7 :
                  Crc16(Flip(Msg, i, k)) # Crc16(Msg) /\ Crc64(Flip(Msg, i, k)) # Crc64(Msg)
 
 ASSUME JsonSerialize(IOEnv.TABLE_OUT, Table)
